@@ -244,10 +244,10 @@ type Obs struct {
 	Err        error
 
 	HelloCmd   int64
-	Hello      *Ad // client ad as received (server role) or sent (client role)
-	ServerAd   *Ad // server ad as sent (server role) or received (client role)
-	Denied     bool         // a DENIED / non-AUTHORIZED ReturnCode was sent or received
-	AnswerAuth string       // "YES"/"NO" in the server ad
+	Hello      *Ad    // client ad as received (server role) or sent (client role)
+	ServerAd   *Ad    // server ad as sent (server role) or received (client role)
+	Denied     bool   // a DENIED / non-AUTHORIZED ReturnCode was sent or received
+	AnswerAuth string // "YES"/"NO" in the server ad
 	AnswerEnc  string
 
 	Offered   []int  // bitmasks the client side offered, in order
